@@ -12,6 +12,14 @@
 // from the compile line: -I$REPO/include -iquote $REPO).  The dummy `photon::thread` objects are
 // zeroed storage with idx = -1; SleepQueue reads/writes only `idx` and `ts_wakeup`; they are
 // never run, constructed or destroyed.
+//
+// Build (no libphoton needed; the unreferenced rest of thread.cpp, which needs alog / epoll /
+// thread-key symbols, is discarded by the section garbage collector):
+//   g++ -std=c++14 -O1 -g -DNDEBUG -I$REPO/include -iquote $REPO -Wno-deprecated-declarations \
+//       -DPHOTON_VERIF -ffunction-sections -fdata-sections -Wl,--gc-sections \
+//       harness/C04/heap_harness.cpp -o heap_impl -lpthread
+//   i.e. vlib.cxx_build('C04', ['harness/C04/heap_harness.cpp'],
+//                       extra='-ffunction-sections -fdata-sections -Wl,--gc-sections')
 #include "thread/thread.cpp"
 
 #include <cstdio>
